@@ -62,7 +62,7 @@ def _contains(root, node):
     return any(n is node for n in ast.walk(root))
 
 
-def analyse(repo, cons, fi, pname):
+def analyse(repo, cons, fi, pname, deep=False):
     """-> (events, violations) for parameter pname of fi."""
     uses = cons.uses(fi, pname)
     g = cfgmod.CFG(fi.node)
@@ -122,7 +122,8 @@ def analyse(repo, cons, fi, pname):
         ev_by_node.setdefault(e[0].id, []).append(e)
     free_ids = {f.id for f in frees}
     worst = None
-    for path in g.paths(max_visits=2, limit=4000):
+    for path in g.paths(max_visits=3 if deep else 2,
+                        limit=60000 if deep else 4000):
         count = 0
         hit = []
         once_seen = set()
@@ -255,7 +256,8 @@ def run(repo, rep):
             seen.add(k)
             fi = ov.func
             n += 1
-            events, viol = analyse(repo, cons, fi, p.name)
+            events, viol = analyse(repo, cons, fi, p.name,
+                                   deep=rep.tier == 'thorough')
             nev += len(events)
             site = '%s/%s' % (fi.key, p.name)
             if not viol:
